@@ -8,6 +8,7 @@ import (
 	"net"
 	"net/url"
 	"os"
+	"path"
 	"path/filepath"
 	"regexp"
 	"sort"
@@ -359,6 +360,8 @@ type c16Gen struct {
 	script     c16Script
 	collide    bool // two distinct generated keys share a naive join of this leg's store
 	anyCollide bool // ... of either store
+	normalize  bool // ... of a join that path-cleans / case-folds / trims the names
+	mode       string
 	excluded   map[string]bool
 	trace      []string
 }
@@ -368,27 +371,39 @@ type c16Gen struct {
 func c16Generate(t *rapid.T, join func(c16Key) string, knownAlias string, etcd bool) c16Gen {
 	var g c16Gen
 	g.excluded = map[string]bool{}
-	small := rapid.SampledFrom([]string{"a", "b", "g", "t", "0", "1", "a:b", "t/0"})
-	mode := rapid.SampledFrom([]string{"free", "colon", "path", "delalias", "prefix", "case"}).Draw(t, "mode")
+	// Topic names are validated by the coordinator ([a-zA-Z0-9._-]); group ids are not
+	// validated anywhere, so the hostile and the constructed-collision names are GROUP names
+	// and most topics are legal (a few hostile ones stay in to exercise the rejection path).
+	small := rapid.SampledFrom([]string{"a", "b", "g", "t", "0", "1", "team", "Orders"})
+	legalTopic := rapid.SampledFrom([]string{"t", "c", "orders", "a.b", "t-1", "T", "0", "a_b", "offsets", "metadata"})
+	mode := rapid.SampledFrom([]string{"clean", "norm", "free", "colon", "path", "delalias", "prefix"}).Draw(t, "mode")
 	var groups, topics []string
-	a, b, c := small.Draw(t, "a"), small.Draw(t, "b"), small.Draw(t, "c")
+	a, b, c := small.Draw(t, "a"), small.Draw(t, "b"), legalTopic.Draw(t, "c")
+	topics = []string{c, legalTopic.Draw(t, "c2")}
 	switch mode {
+	case "clean":
+		// ids that differ only in forms a path cleaner / splitter would collapse
+		base := a + "/" + b
+		variants := []string{a + "//" + b, a + "/./" + b, a + "/x/../" + b, base + "/", "/" + base, "./" + base, a + "/" + b + "/.",
+			a + "/../" + a + "/" + b, "//" + base, base + "//"}
+		groups = append([]string{base}, rapid.SliceOfNDistinct(rapid.SampledFrom(variants), 1, 3, func(s string) string { return s }).Draw(t, "variants")...)
+	case "norm":
+		// ids that differ only under case folding, trimming, unicode or percent/plus decoding
+		base := a + " " + b + "é"
+		variants := []string{strings.ToUpper(base), strings.ToLower(base), base + " ", " " + base, a + "%20" + b + "é", a + "+" + b + "é",
+			a + " " + b + "e\u0301", a + "\u00a0" + b + "é", base + "\x00", a + "  " + b + "é", a + "%2F" + b, a + "/" + b, base + "\n"}
+		groups = append([]string{base}, rapid.SliceOfNDistinct(rapid.SampledFrom(variants), 1, 3, func(s string) string { return s }).Draw(t, "variants")...)
 	case "colon":
-		groups = []string{a + ":" + b, a}
-		topics = []string{c, b + ":" + c}
+		groups = []string{a + ":" + b, a, a + ":" + b + ":" + c, a + ":" + c}
+		topics = append(topics, b+":"+c)
 	case "path":
-		groups = []string{a + "/offsets/" + b, a}
-		topics = []string{c, b + "/offsets/" + c}
+		groups = []string{a + "/offsets/" + b, a, a + "/offsets/" + c, a + "/offsets/" + c + "/0"}
+		topics = append(topics, b+"/offsets/"+c)
 	case "delalias":
-		legal := rapid.SampledFrom([]string{"t", "orders", "a.b"}).Draw(t, "legal")
-		groups = []string{a + "/offsets/" + legal, a + "/offsets/" + legal + "/" + b, a}
-		topics = []string{legal, c}
-	case "case":
-		groups = []string{a, strings.ToUpper(a), a + " "}
-		topics = []string{c, strings.ToUpper(c), " " + c}
+		groups = []string{a + "/offsets/" + c, a + "/offsets/" + c + "/" + b, a, c}
 	case "prefix":
-		groups = []string{a, a + b, a + ":"}
-		topics = []string{c, c + b, c + "/"}
+		groups = []string{a, a + b, a + ":", a + "/", a + "/metadata"}
+		topics = append(topics, c+b)
 	}
 	nfree := rapid.IntRange(0, 2).Draw(t, "nfree")
 	if mode == "free" {
@@ -396,7 +411,9 @@ func c16Generate(t *rapid.T, join func(c16Key) string, knownAlias string, etcd b
 	}
 	for i := 0; i < nfree; i++ {
 		groups = append(groups, c16NameGen().Draw(t, "group"))
-		topics = append(topics, c16NameGen().Draw(t, "topic"))
+		if rapid.IntRange(0, 3).Draw(t, "hostile-topic") == 0 {
+			topics = append(topics, c16NameGen().Draw(t, "topic"))
+		}
 	}
 	groups, topics = c16Dedup(groups), c16Dedup(topics)
 	g.script.Groups = groups
@@ -428,6 +445,15 @@ func c16Generate(t *rapid.T, join func(c16Key) string, knownAlias string, etcd b
 				usable[k] = true
 			}
 		}
+	}
+	g.mode = mode
+	seenN := map[string]bool{}
+	for _, k := range keys {
+		n := strings.ToLower(path.Clean("/" + strings.TrimSpace(k.Group) + "/offsets/" + k.Topic + fmt.Sprintf("/%d", k.Part)))
+		if seenN[n] {
+			g.normalize = true
+		}
+		seenN[n] = true
 	}
 	seenC, seenP := map[string]bool{}, map[string]bool{}
 	for _, k := range keys {
@@ -483,6 +509,17 @@ func c16Generate(t *rapid.T, join func(c16Key) string, knownAlias string, etcd b
 		}
 		// pick a group, then 1..3 distinct keys of that group
 		k0 := rapid.SampledFrom(pool).Draw(t, "key")
+		if kind == "fetch" && len(committed) > 0 && rapid.Bool().Draw(t, "fetch-committed") {
+			var ck []c16Key
+			for _, k := range pool { // pool order is deterministic
+				if committed[k] {
+					ck = append(ck, k)
+				}
+			}
+			if len(ck) > 0 {
+				k0 = rapid.SampledFrom(ck).Draw(t, "ckey")
+			}
+		}
 		var mine []c16Key
 		for _, k := range pool {
 			if k.Group == k0.Group {
@@ -535,6 +572,10 @@ func c16Record(st *vfkit.Stats, leg string, g c16Gen, info c16Info) {
 	if g.collide {
 		st.Class("keys-colliding-under-this-store-join")
 	}
+	st.Class("mode-" + g.mode)
+	if g.normalize {
+		st.Class("keys-colliding-under-a-normalizing-join")
+	}
 	if g.anyCollide {
 		st.Class("keys-colliding-under-some-join")
 	}
@@ -559,7 +600,7 @@ func c16Record(st *vfkit.Stats, leg string, g c16Gen, info c16Info) {
 	if info.zeroForAbsent > 0 {
 		st.ExcludedCase(c16FindZero)
 	}
-	if g.anyCollide || info.absentFetch > 0 {
+	if g.anyCollide || g.normalize || info.absentFetch > 0 {
 		st.NonTrivial(leg, g.script.Groups, g.trace)
 		st.Sample(g.script)
 	}
